@@ -216,6 +216,8 @@ class CallMixin:
                 return V(TPy("func"), ("func", self.repo.modules[mci.module], mci, mnode))
             if attr in ci.class_consts:
                 return self.eval_class_const(ci, attr, st)
+            if attr in ci.nested:
+                return V(TPy("class"), ("class", ci.nested[attr]))
             raise Unsupported(f"class attribute {ci.name}.{attr}")
         if kind == "super":
             _, selfv, ci = base.z
@@ -576,6 +578,12 @@ class CallMixin:
         if mod.startswith("*"):
             key = mod[1:]
             m = post.heap.get(key, self.heap0.get(key))
+            if m is None and key.startswith("list<"):
+                # content map of lists of a primitive element type that this path has not read yet
+                for elt in (INT, STR, BYTES, BOOL, REAL):
+                    if self.list_key(elt) == key:
+                        m = self.heap_map(post, key, theory_of(TList(elt)).S)
+                        break
             if m is None:
                 cname, _, attr = key.partition(".")
                 ft = self.field_type(cname, attr)
